@@ -374,3 +374,7 @@ def run(repo, chk, tier):
     from .c18_copy import check_copy_isolation
 
     check_copy_isolation(repo, chk)
+    # pre-cached per-chain parts are one of the strategies: they must meet the per-chain quantities of the same chains
+    from .c05_cachedkey import check_cached_key_pairing
+
+    check_cached_key_pairing(repo, chk)
